@@ -386,7 +386,65 @@ def run(ctx):
            for n in walk_local(di.node))
   ctx.check(ok, 'C02.containers', construct(di), "dict items require ':' between key and value", "dict items no longer require ':'", di.loc(), instance='dict-colon')
 
+  shared_results(ctx, 'C02.containers')
   eos(ctx, 'C02.eos')
+
+
+def shared_results(ctx, rule):
+  """A parsed value is a new object each time: no parser method hands out (an element of) a container that lives at module or
+  class level, which the next parse of the same text would return again, with whatever the client did to it meanwhile."""
+  prog = ctx.prog
+  from ..lib import expand_expr
+  m = ctx.ix.module('config_parser')
+  c = ctx.cls(CP)
+
+  def mutable_holder(v, depth=0):
+    # a literal / constructed container that holds (or is) a mutable object
+    if isinstance(v, (ast.List, ast.Set, ast.ListComp, ast.SetComp, ast.DictComp)):
+      return True
+    if isinstance(v, ast.Dict):
+      return True
+    if isinstance(v, ast.Tuple):
+      return any(mutable_holder(e, depth + 1) for e in v.elts)
+    if isinstance(v, ast.Call) and u(v.func) in ('dict', 'list', 'set', 'collections.defaultdict', 'collections.OrderedDict', 'collections.deque'):
+      return True
+    return False
+  shared = {n for n, defs in m.assigns.items() if any(mutable_holder(v) for _st, v in defs)}
+  shared |= {'%s.%s' % (pfx, t.id) for st in c.node.body if isinstance(st, ast.Assign) and mutable_holder(st.value)
+             for t in st.targets if isinstance(t, ast.Name) for pfx in ('self', 'cls', c.node.name, 'type(self)')}
+
+  def rooted(e):
+    # e evaluates to a shared container or to an element fetched from one
+    while True:
+      if isinstance(e, ast.Subscript):
+        e = e.value
+      elif isinstance(e, ast.Call) and isinstance(e.func, ast.Attribute) and e.func.attr in ('get', 'setdefault', 'pop', '__getitem__'):
+        e = e.func.value
+      else:
+        break
+    return u(e) if u(e) in shared else None
+  n_ret = 0
+  for name, mf in sorted(c.methods.items()):
+    g, facts = std_facts(prog, mf)
+    for r in [n for n in g.live_nodes() if n.kind == 'return' and n.ast.value is not None]:
+      v0 = r.ast.value
+      cands = list(v0.elts) if isinstance(v0, ast.Tuple) else [v0]
+      for e in cands:
+        n_ret += 1
+        x = expand_expr(facts[r.id], e)
+        # either arm of a conditional value
+        arms = [x]
+        while any(isinstance(a, ast.IfExp) for a in arms):
+          arms = [b for a in arms for b in ([a.body, a.orelse] if isinstance(a, ast.IfExp) else [a])]
+        for a in arms:
+          src = rooted(a)
+          if src is not None and not isinstance(a, ast.Name):
+            ctx.fail(rule, construct(mf), '`%s` returns `%s`, an object kept in the shared table `%s`: every parse of that text hands out the same '
+                     'mutable object, so a value a client has modified is what later parses of the same literal yield (and `[[], []]` is one list twice)'
+                     % (name, u(e), src), mf.loc(r.ast), instance='shared:' + src)
+  ctx.expect_at_least('parser return values examined for shared objects', n_ret, 20)
+  ctx.hold(rule, 'gin/config_parser.py::ConfigParser', 'no parser method returns an element of a module- or class-level container (%d shared containers known: %s)'
+           % (len(shared), sorted(shared)[:6]), 'gin/config_parser.py:%d' % c.node.lineno, sites=n_ret, instance='results-fresh')
 
 
 def eos(ctx, rule):
